@@ -138,12 +138,26 @@ def _build_condition(
     # is_null / is_not_null for that. A NULL in the value set therefore matches
     # nothing and is dropped, and every result is explicitly restricted to
     # non-null rows.
+    def _matches_any(values: List[Any]) -> pc.Expression:
+        """`field IN values`, compared the way `==` compares."""
+        if any(isinstance(v, float) for v in values):
+            # pc.is_in casts the value set to the COLUMN's type: on a float32
+            # column 0.1 would match the stored 0.1f although `field == 0.1`
+            # (compared in double precision) does not - and file pruning, which
+            # compares the literal with the bounds, would drop files is_in
+            # matches in. x IN (a, b) is x = a OR x = b.
+            matched = field == values[0]
+            for v in values[1:]:
+                matched = matched | (field == v)
+            return matched
+        return pc.is_in(field, value_set=pa.array(values))
+
     def _in_condition() -> pc.Expression:
         values = [v for v in expr.value if v is not None]
         if not values:
             # IN () matches nothing (SQL semantics)
             return pc.scalar(False)
-        return pc.is_in(field, value_set=pa.array(values)) & field.is_valid()
+        return _matches_any(values) & field.is_valid()
 
     def _not_in_condition() -> pc.Expression:
         values = [v for v in expr.value if v is not None]
@@ -152,7 +166,7 @@ def _build_condition(
             return field.is_valid()
         # `~pc.is_in(...)` alone KEEPS null rows (is_in returns false for them),
         # which contradicts the documented contract - hence the is_valid() guard.
-        return (~pc.is_in(field, value_set=pa.array(values))) & field.is_valid()
+        return (~_matches_any(values)) & field.is_valid()
 
     op_handlers: Dict[FilterOp, Any] = {
         FilterOp.EQ: lambda: field == expr.value,
